@@ -25,6 +25,13 @@
 (*   Routes  all routes of one request give the same numbers, and those that  *)
 (*           return a unit the same unit; this includes A->A'(copy)->B (in    *)
 (*           place on the copy) and A->B asked again of the source afterwards *)
+(* A route may name its target as a Unit object, as a string (to_name:     *)
+(* resolved in the quantity's registry) or - for unit-system requests - as   *)
+(* the expression in_base arrived at, rebuilt in the quantity's registry      *)
+(* (to_named).  The resulting unit is projected to its string; a unit whose   *)
+(* expression means something else in the quantity's registry (bound to       *)
+(* another table with other values) is marked as a different unit, so "same   *)
+(* resulting unit" is about meaning, not only spelling.                       *)
 (* Not demanded: bit-identical floats, result dtype/class (C16/C17), which    *)
 (* unit a unit system picks (C10), 1- and 2-byte integers (C17/C18).          *)
 EXTENDS Convert
